@@ -33,6 +33,11 @@ def race_family():
                     # B's first message (RESYNC + restart flag) is in flight towards A; A's pass overlaps its arrival
                     ops += (['pass A'] if early else []) + [f'passi A {point} B', 'del A B', 'del A B', 'tick 1', 'pass A', 'del A B', 'heal']
                     yield {'names': names, 'phens': gc.CONFLICT, 'cache': 1000, 'ops': ops}
+                    if not early and point == 'lock':
+                        # the survivors were cold-started without announcing themselves; that setting is about what an
+                        # instance SAYS at start-up, the restarted peer's announcement is honoured all the same
+                        yield {'names': names, 'phens': gc.CONFLICT, 'cache': 1000, 'ops': ops, 'quiet': [n for n in names if n != 'B']}
+                        yield {'names': names, 'phens': gc.CONFLICT, 'cache': 1000, 'ops': ops, 'quiet': list(names)}
 
 
 def double_restart_family():
@@ -85,12 +90,16 @@ def crash_schedule(rng):
         else:
             out.append(o)
     sc['ops'] = out + ['heal']
+    if rng.random() < 0.25:
+        sc['quiet'] = [n for n in sc['names'] if rng.random() < 0.6]
     return sc
 
 
 def flags_oracle(r):
     """restart flag on every message of a fresh instance until one is delivered, then never again."""
     for inst in list(r.c.insts.values()) + r.c.dead:
+        if inst.gen == 0 and inst.name in r.c.quiet:
+            continue                  # configured not to announce itself (it still has to honour the others' announcements)
         delivered = {}
         for (t, dst, typ, flags, err) in inst.wire_log:
             if not delivered.get(dst) and not (flags & 1):
@@ -137,7 +146,7 @@ SPEC = PropSpec(
     rule='race family: a survivor with 0-1 pending changes, the peer restarts, and its announcement is handled by the survivor\'s incoming '
          'thread at every atomic-step boundary of the survivor\'s outgoing pass (after the decision phase / during each send), 2 and 3 '
          'instances; plus seeded schedules (10-36 ops) with one restart at a random position and a third of the survivors\' later passes '
-         'overlapping the announcement; all followed by healing with clock advances',
+         'overlapping the announcement; survivors (or all instances) cold-started with flag_reset=False in part of the race family and a quarter of the schedules; all followed by healing with clock advances',
     trusted_base=['harness/cluster.py: thread interleavings are executed deterministically by running the other thread\'s step at the '
                   'boundaries of the outgoing pass (each BoboDeviceManager access is atomic under its lock)'],
     assumptions=['one crash at a time, links healthy', 'finished-run memory enabled and large enough'],
